@@ -130,3 +130,30 @@ func H_C20_computed() {
 	ex, err := Search("[`100` == `1e2`, `1E2` == `1e2`, `0` == `-0`, `100.0` == `1e2`, `1e2` == `100`, `10e1` != `100`]", nil)
 	vrtAssert(err == nil && refEqual(ex, []any{true, true, true, true, true, false}), "numbers are compared by value in every spelling")
 }
+
+// H_C20_literals: equality does not depend on whether its operands are
+// written in the expression or come from the data: every pair of literal
+// texts (numbers in several spellings, alone and inside arrays and objects)
+// compared as literal == literal, literal == data, data == data and through
+// !=, contains and a filter gives the one answer of the reference relation.
+var c20Lits = []string{
+	"`1`", "`1.0`", "`1e0`", "`[1]`", "`[1.0]`", "`[1, 2]`", "`[1.0, 2e0]`", "`{\"a\":10}`", "`{\"a\":1e1}`", "`{\"a\":1e1,\"b\":[0]}`", "`{\"b\":[-0],\"a\":10.0}`",
+	"`[]`", "`{}`", "`null`", "`\"1\"`", "'1'", "`[[1]]`", "`[[1.00]]`", "`true`", "`[null]`", "`[0]`", "`[-0]`", "`[\"1\"]`", "`{\"a\":null}`", "`{\"b\":null}`", "`0.10`", "`1e-1`",
+}
+
+func H_C20_literals() {
+	p := c20Lits[vrtChoose("p", len(c20Lits))]
+	q := c20Lits[vrtChoose("q", len(c20Lits))]
+	vrtNote("template:literal pair " + p + " " + q)
+	x, err := Search(p, nil)
+	vrtAssert(err == nil, "literal evaluates")
+	y, err := Search(q, nil)
+	vrtAssert(err == nil, "literal evaluates")
+	want := refEqual(x, y)
+	doc := map[string]any{"a": x, "b": y}
+	for _, e := range []string{p + " == " + q, p + " == b", "a == " + q, "a == b", "!(" + p + " != " + q + ")", "contains([" + p + "], " + q + ")", "contains([a], " + q + ")", "length([[" + p + "]][?@[0] == " + q + "]) == `1`", "(" + p + " == " + q + ") && `true`"} {
+		got, err := Search(e, doc)
+		vrtAssert(err == nil, "comparison never fails")
+		vrtAssert(got == any(want), "equality of two values depends on how they are written: "+e)
+	}
+}
